@@ -25,8 +25,12 @@ func (c14) Gen(tier string, seed int64, emit func([]Ev)) {
 		}
 		shapes = append(shapes, shapes...)
 	}
+	shapes = append(shapes, -1, -2, -3)
 	for si, ns := range shapes {
 		pmt := randPMT(r, ns, si%3 == 0)
+		if ns < 0 {
+			pmt = limitPMT(r, -ns-1, []int{1021, 1021, 1020, 1000 + r.Intn(22)}[r.Intn(4)])
+		}
 		sec := pmtSection(pmt)
 		var pids []int
 		for _, s := range pmt.Streams {
